@@ -27,6 +27,7 @@ type SV struct {
 type scope struct {
 	vars   map[string]SV
 	parent *scope
+	bound  bool // layer of quantifier / let variables (kept when old() switches to the entry scope)
 }
 
 func (s *scope) lookup(n string) (SV, bool) {
@@ -39,6 +40,23 @@ func (s *scope) lookup(n string) (SV, bool) {
 }
 
 func (s *scope) push() *scope { return &scope{vars: map[string]SV{}, parent: s} }
+
+func (s *scope) pushBound() *scope { return &scope{vars: map[string]SV{}, parent: s, bound: true} }
+
+// rebase puts the bound-variable layers of s on top of base.
+func (s *scope) rebase(base *scope) *scope {
+	var layers []*scope
+	for c := s; c != nil; c = c.parent {
+		if c.bound {
+			layers = append(layers, c)
+		}
+	}
+	out := base
+	for i := len(layers) - 1; i >= 0; i-- {
+		out = &scope{vars: layers[i].vars, parent: out, bound: true}
+	}
+	return out
+}
 
 type specErr struct{ msg string }
 
@@ -55,6 +73,8 @@ type Eval struct {
 	depth   int
 	// Side collects definitional hypotheses produced during evaluation.
 	Side *[]*smt.Term
+	// Facts receives type invariants of values the specification reads from the heap.
+	Facts func(*smt.Term)
 }
 
 func (e *Eval) fail(f string, a ...any) {
@@ -139,6 +159,22 @@ func (e *Eval) FromVal(v Val, t types.Type) SV {
 	}
 	e.fail("cannot use value %T in a specification", v)
 	return SV{}
+}
+
+// loaded wraps a value read from the heap by a specification and records its type invariant
+// (slice/string headers within the address-space bound) as a fact of the current state.
+func (e *Eval) loaded(t *smt.Term, ty types.Type) SV {
+	if e.Facts != nil && t.Closed() {
+		switch ty.Underlying().(type) {
+		case *types.Slice, *types.Pointer, *types.Map, *types.Chan, *types.Struct:
+			e.Facts(e.P.T.Inv(t, ty, 0))
+		case *types.Basic:
+			if isString(ty) {
+				e.Facts(e.P.T.Inv(t, ty, 0))
+			}
+		}
+	}
+	return e.FromVal(t, ty)
 }
 
 func (e *Eval) term(v SV) *smt.Term {
@@ -243,7 +279,10 @@ func (e *Eval) Eval(x spec.Expr) SV {
 		}
 		return SV{T: a.T, Term: smt.Ite(c, e.term(a), e.term(b))}
 	case *spec.Quant:
-		sc := e.Scope.push()
+		if r, ok := e.unrollQuant(x); ok {
+			return r
+		}
+		sc := e.Scope.pushBound()
 		var vars []*smt.Term
 		var guards []*smt.Term
 		for _, p := range x.Vars {
@@ -260,7 +299,7 @@ func (e *Eval) Eval(x spec.Expr) SV {
 		}
 		return boolSV(smt.Exists(vars, smt.And(append(guards, body)...)))
 	case *spec.Let:
-		sc := e.Scope.push()
+		sc := e.Scope.pushBound()
 		v := e.Eval(x.Val)
 		v = e.coerce(v, tInt)
 		sc.vars[x.Name] = v
@@ -273,11 +312,84 @@ func (e *Eval) Eval(x spec.Expr) SV {
 		return e.slice(x)
 	case *spec.Selector:
 		return e.selector(x)
+	case *spec.TypeAssert:
+		v := e.Eval(x.X)
+		if v.T == nil || e.P.T.SortOf(v.T) != IfaceSort {
+			e.fail("type assertion on a non-interface value")
+		}
+		t := e.ResolveType(x.T)
+		return e.FromVal(e.P.unbox(v.Term, t), t)
 	case *spec.TypeE:
 		e.fail("type used as value")
 	}
 	e.fail("unsupported specification expression %T", x)
 	return SV{}
+}
+
+// unrollQuant expands `forall t T :: lo <= t && t < hi ==> P` (or exists ... && P) when lo and hi are
+// constants at most 64 apart: a conjunction (disjunction) of instances, no quantifier for the solver.
+func (e *Eval) unrollQuant(x *spec.Quant) (SV, bool) {
+	if len(x.Vars) != 1 {
+		return SV{}, false
+	}
+	var guard, body spec.Expr
+	if b, ok := x.Body.(*spec.Binary); ok && ((x.Forall && b.Op == "==>") || (!x.Forall && b.Op == "&&")) {
+		guard, body = b.X, b.Y
+	} else {
+		return SV{}, false
+	}
+	g, ok := guard.(*spec.Binary)
+	if !ok || g.Op != "&&" {
+		return SV{}, false
+	}
+	lo, ok1 := g.X.(*spec.Binary)
+	hi, ok2 := g.Y.(*spec.Binary)
+	if !ok1 || !ok2 || lo.Op != "<=" || hi.Op != "<" {
+		return SV{}, false
+	}
+	name := x.Vars[0].Name
+	if id, ok := lo.Y.(*spec.Ident); !ok || id.Name != name {
+		return SV{}, false
+	}
+	if id, ok := hi.X.(*spec.Ident); !ok || id.Name != name {
+		return SV{}, false
+	}
+	constOf := func(ex spec.Expr) (*big.Int, bool) {
+		switch ex.(type) {
+		case *spec.IntLit, *spec.CharLit:
+		default:
+			return nil, false
+		}
+		v := e.Eval(ex)
+		if v.Const == nil {
+			return nil, false
+		}
+		return v.Const, true
+	}
+	l, okl := constOf(lo.X)
+	h, okh := constOf(hi.Y)
+	if !okl || !okh {
+		return SV{}, false
+	}
+	n := new(big.Int).Sub(h, l)
+	if !n.IsInt64() || n.Int64() > 64 {
+		return SV{}, false
+	}
+	t := e.ResolveType(x.Vars[0].Type)
+	if !isInteger(t) {
+		return SV{}, false
+	}
+	var parts []*smt.Term
+	for i := int64(0); i < n.Int64(); i++ {
+		sc := e.Scope.pushBound()
+		v := new(big.Int).Add(l, big.NewInt(i))
+		sc.vars[name] = SV{T: t, Term: smt.BVLit(v, intWidth(t))}
+		parts = append(parts, e.inScope(sc).Bool(body))
+	}
+	if x.Forall {
+		return boolSV(smt.And(parts...)), true
+	}
+	return boolSV(smt.Or(parts...)), true
 }
 
 func (e *Eval) ident(name string) SV {
@@ -390,6 +502,11 @@ func (e *Eval) unary(x *spec.Unary) SV {
 		return SV{T: v.T, Term: smt.BVNeg(v.Term)}
 	case "+":
 		return v
+	case "&":
+		if v.Loc == nil || v.T == nil {
+			e.fail("& of a value that has no location")
+		}
+		return SV{T: types.NewPointer(v.T), Loc: v.Loc}
 	case "^":
 		if v.T == nil {
 			return SV{Const: new(big.Int).Not(v.Const)}
@@ -406,7 +523,7 @@ func (e *Eval) unary(x *spec.Unary) SV {
 			e.fail("dereference of non-pointer")
 		}
 		et := v.Loc.Type()
-		return e.FromVal(e.Env.Load(e.Heap, v.Loc), et)
+		return e.loaded(e.Env.Load(e.Heap, v.Loc), et)
 	}
 	e.fail("unsupported unary %s", x.Op)
 	return SV{}
@@ -670,8 +787,12 @@ func (e *Eval) selector(x *spec.Selector) SV {
 		if v.Loc == nil {
 			e.fail("pointer without location")
 		}
-		l := v.Loc.extend(pathElem{Field: fi, T: ft})
-		return e.FromVal(e.Env.Load(e.Heap, l), ft)
+		l := e.Env.Field(v.Loc, fi, ft)
+		if isGoStruct(ft) && l.Kind == LRoot && len(l.Path) == 0 {
+			// an embedded object: the selector denotes the object itself (its fields are read through it)
+			return SV{T: ft, Term: e.Env.Load(e.Heap, l), Loc: l}
+		}
+		return e.loaded(e.Env.Load(e.Heap, l), ft)
 	}
 	if st, ok := t.Underlying().(*types.Struct); ok {
 		fi, ft := fieldIndex(st, x.Name)
@@ -723,7 +844,7 @@ func (e *Eval) call(x *spec.Call) SV {
 		}
 		o := e.with(e.Old)
 		if e.OldScope != nil {
-			o.Scope = e.OldScope
+			o.Scope = e.Scope.rebase(e.OldScope)
 		}
 		return o.Eval(x.Args[0])
 	case "len", "cap":
@@ -796,6 +917,29 @@ func (e *Eval) call(x *spec.Call) SV {
 		same := smt.And(smt.Eq(SlRef(a.Term), SlRef(b.Term)), smt.Eq(SlCap(a.Term), SlCap(b.Term)))
 		return boolSV(smt.And(smt.BVUge(SlLen(a.Term), SlLen(b.Term)), smt.Eq(SlOff(a.Term), SlOff(b.Term)),
 			smt.Or(same, smt.IGe(SlRef(a.Term), e.Env.Next(e.Old)))))
+	case "typeis": // typeis(x, T): the dynamic type of interface value x is T
+		v := e.Eval(x.Args[0])
+		var te *spec.TypeExpr
+		switch a := x.Args[1].(type) {
+		case *spec.Ident:
+			te = &spec.TypeExpr{Kind: "name", Name: a.Name}
+		case *spec.Selector:
+			if id, ok := a.X.(*spec.Ident); ok {
+				te = &spec.TypeExpr{Kind: "name", Pkg: id.Name, Name: a.Name}
+			}
+		case *spec.TypeE:
+			te = a.T
+		}
+		if te == nil {
+			e.fail("typeis: second argument must be a type")
+		}
+		return boolSV(smt.Eq(IfTyp(v.Term), e.P.T.TypeID(e.ResolveType(te))))
+	case "zeroof": // zero value of the type of the argument
+		v := e.Eval(x.Args[0])
+		if v.T == nil {
+			e.fail("zeroof of untyped value")
+		}
+		return e.FromVal(e.P.T.Zero(v.T), v.T)
 	case "wraps":
 		a, b := e.Eval(x.Args[0]), e.Eval(x.Args[1])
 		e.P.D.AddFunc("wraps", smt.Bool, IfaceSort, IfaceSort)
@@ -821,7 +965,7 @@ func (e *Eval) applySpecFunc(sf *specFn, args []spec.Expr) SV {
 	if len(args) != len(sf.F.Params) {
 		e.fail("%s: %d arguments, want %d", sf.F.Name, len(args), len(sf.F.Params))
 	}
-	defEval := &Eval{P: e.P, Env: e.Env, Pkg: sf.Pkg, Heap: e.Heap, Old: e.Old, TParams: e.TParams, Pos: sf.F.Pos, depth: e.depth, Side: e.Side}
+	defEval := &Eval{P: e.P, Env: e.Env, Pkg: sf.Pkg, Heap: e.Heap, Old: e.Old, TParams: e.TParams, Pos: sf.F.Pos, depth: e.depth, Side: e.Side, Facts: e.Facts}
 	sc := &scope{vars: map[string]SV{}}
 	for i, p := range sf.F.Params {
 		v := e.Eval(args[i])
